@@ -106,6 +106,8 @@ def jobs_for(pid, tier, seed):
         J.append(mfam('2 tasks, 3 hooks, outcomes ok/err/panic', ['C01'], 5 if q else 7, tasks=2, hooks=H3, env={'create': OE, 'recycle': OE, 'hook': ('ok', 'err', 'panic')}, probe=False))
         J.append(mfam('2 tasks + retain/status', ['C01'], 5 if q else 7, tasks=2, env={'create': OE, 'recycle': OE}, ctl=('retain', 'status'), probe=False))
         J.append(mfam('2 tasks, stuck manager futures', ['C01'], 5 if q else 7, tasks=2, env={'create': ('ok', 'stuck'), 'recycle': ('ok', 'err', 'stuck')}, probe=False))
+        J.append(mfam('2 tasks + retain while a get() is suspended in create', ['C01', 'C02'], 6 if q else 8, tasks=2, env={'create': ('ok', 'pending'), 'recycle': ('ok',)}, ctl=('retain',), max_ctl=1,
+                      cancel=False, take=False, probe=True, lifo=False))
         J.append(mfam('thread level: retain racing get / return (idle objects, predicate and detach as schedule points)', ['C01'], 10 if q else 14, tasks=2, env={'create': ('ok',), 'recycle': ('ok',)},
                       thread_mode=True, prefix=(('get', 'T1', 0), ('get', 'T2', 0), ('drop', 'T1', 0)), ctl=('retain',), max_ctl=1, cancel=False, take=False, lifo=False, max_gets=2, max_size_concrete=2, probe=False))
     elif pid == 'C02':
@@ -114,6 +116,10 @@ def jobs_for(pid, tier, seed):
         J.append(mfam('2 tasks, 3 hooks ok/err/panic', ['C02'], 4 if q else 6, tasks=2, hooks=H3, env={'create': OE, 'recycle': OE, 'hook': ('ok', 'err', 'panic')}))
         J.append(mfam('2 tasks, per-call timeouts', ['C02'], 4 if q else 6, tasks=2, env={'create': OEPS, 'recycle': OEPS},
                       timeout_variants=[None, ('pos', 'pos', 'pos'), ('zero', None, None)]))
+        J.append(mfam('2 tasks + resize: no capacity is lost (waiters with assigned permits, shrink, grow)', ['C02'], 6 if q else 8, tasks=2, env={'create': ('ok',), 'recycle': ('ok',)},
+                      ctl=('resize',), resize_targets=(0, 1, 2), max_ctl=2, cancel=False, take=False, lifo=False))
+        J.append(mfam('a waiter holds an assigned permit across a shrink and a grow: no capacity is lost (max_size 1)', ['C02'], 6 if q else 8, tasks=2, max_size_concrete=1, prefix=(('get', 'T1', 0), ('get', 'T2', 0)),
+                      env={'create': ('ok',), 'recycle': ('ok',)}, ctl=('resize',), resize_targets=(0, 1), max_ctl=2, cancel=False, take=False, lifo=False))
         J.append(mfam('thread level: take / return / get racing on a full pool (3 threads)', ['C02'], 16 if q else 20, tasks=3, env={'create': ('ok',), 'recycle': ('ok',)},
                       thread_mode=True, prefix=(('get', 'T1', 0), ('get', 'T3', 0)), cancel=False, lifo=False, max_gets=1, max_size_concrete=2))
         J.append(mfam('thread level: failing get / return racing (2 threads)', ['C02'], 14 if q else 18, tasks=2, env={'create': ('ok', 'err'), 'recycle': ('ok', 'err')},
@@ -133,10 +139,14 @@ def jobs_for(pid, tier, seed):
         J.append(mfam('1 task, no hooks, ok/err, long histories', ['C04'], 8 if q else 11, tasks=1, env=E, cancel=False, take=False, probe=False))
         J.append(mfam('2 tasks, per-call timeouts, 3 hooks async', ['C04'], 4 if q else 6, tasks=2, hooks=H3A, env={'create': OEPS, 'recycle': OEPS, 'hook': OEPS},
                       timeout_variants=[('pos', 'pos', 'pos')], take=False, probe=False))
+        J.append(mfam('no runtime: per-call timeouts must not cost healthy idle objects', ['C04', 'C10'], 5 if q else 7, tasks=2, env={'create': OE, 'recycle': OE}, runtime=False,
+                      timeout_variants=[None, (None, None, 'pos'), ('zero', None, 'pos'), (None, 'pos', None)], take=False, cancel=False, probe=False, lifo=False))
         J.append(mfam('2 tasks, hooks panic', ['C04'], 5 if q else 7, tasks=2, hooks=H3, env={'create': OE, 'recycle': OE, 'hook': ('ok', 'err', 'panic')}, take=False, probe=False))
     elif pid == 'C06':
         E = {'create': OE, 'recycle': OE}
         J.append(mfam('task level: 2 tasks + close/resize/status, waiters, returns after close', ['C06'], 6 if q else 8, tasks=2, env=E, ctl=('close', 'resize', 'status'), resize_targets=(1, 2), max_ctl=2, probe=False))
+        J.append(mfam('task level: close while a get() is suspended in create / recycle', ['C06'], 5 if q else 7, tasks=2, env={'create': ('ok', 'pending'), 'recycle': ('ok', 'pending')},
+                      ctl=('close', 'status'), max_ctl=2, probe=False, take=False, cancel=False))
         J.append(mfam('task level: 3 tasks + close', ['C06'], 5 if q else 7, tasks=3, env={'create': ('ok',), 'recycle': ('ok',)}, ctl=('close',), max_ctl=1, probe=False, take=False))
         J.append(mfam('thread level: return racing close (1 object out)', ['C06'], 12 if q else 16, tasks=1, env={'create': ('ok',), 'recycle': ('ok',)}, ctl=('close',), max_ctl=1,
                       thread_mode=True, prefix=(('get', 'T1', 0),), cancel=False, take=False, probe=False, lifo=False))
@@ -157,6 +167,8 @@ def jobs_for(pid, tier, seed):
         J.append(mfam('2 tasks + retain (any subset), take', ['C09'], 6 if q else 8, tasks=2, env={'create': ('ok',), 'recycle': OE}, ctl=('retain',), max_ctl=2, cancel=False))
         J.append(mfam('2 tasks + retain while a get() is suspended in create / recycle', ['C09'], 5 if q else 7, tasks=2, env={'create': ('ok', 'pending'), 'recycle': ('ok', 'pending')}, ctl=('retain',), max_ctl=1,
                       cancel=False, take=False, probe=False))
+        J.append(mfam('task level: close / resize while a get() is suspended in create / recycle', ['C09'], 5 if q else 7, tasks=2, env={'create': ('ok', 'pending'), 'recycle': ('ok', 'pending')},
+                      ctl=('close', 'resize', 'status'), resize_targets=(0, 1), max_ctl=2, probe=False, take=False, cancel=False))
         J.append(mfam('3 tasks + retain, capacity probe', ['C09', 'C02'], 5 if q else 7, tasks=3, env={'create': ('ok',), 'recycle': ('ok',)}, ctl=('retain',), max_ctl=1, cancel=False, lifo=False))
         J.append(mfam('2 tasks + retain/resize/close: detach exactly once', ['C09'], 5 if q else 7, tasks=2, env=E, ctl=('retain', 'resize', 'close'), resize_targets=(0, 1), max_ctl=2, probe=False))
         J.append(mfam('2 tasks, hooks reject, cancel: detach exactly once', ['C09'], 5 if q else 7, tasks=2, hooks=H3, env={'create': OEP, 'recycle': OEP, 'hook': OEP}, probe=False))
@@ -237,11 +249,15 @@ def jobs_for(pid, tier, seed):
                       env={'create': ('ok',), 'recycle': OE}, cancel=False, take=False, probe=False))
         J.append(mfam('3 objects out, returned in any order, retain, then gets (max_size 3)', ['C08'], 7 if q else 9, tasks=3, max_size_concrete=3, prefix=P3,
                       env={'create': ('ok',), 'recycle': ('ok',)}, ctl=('retain',), max_ctl=1, cancel=False, take=False, probe=False))
+        J.append(mfam('idle objects that survive a shrink / grow keep their order (max_size 3)', ['C08'], 7 if q else 9, tasks=3, max_size_concrete=3, prefix=P3,
+                      env={'create': ('ok',), 'recycle': ('ok',)}, ctl=('resize',), resize_targets=(2, 4), max_ctl=1, cancel=False, take=False, probe=False))
     elif pid == 'C11':
         J.append(mfam('2 tasks, ok/err/pending/panic', ['C11'], 5 if q else 7, tasks=2, env={'create': OEPP, 'recycle': OEPP}, probe=False))
         J.append(mfam('3 tasks, ok/err', ['C11'], 5 if q else 7, tasks=3, env={'create': OE, 'recycle': OE}, probe=False))
         J.append(mfam('2 tasks, 3 hooks, ok/err/panic', ['C11'], 5 if q else 7, tasks=2, hooks=H3, env={'create': OE, 'recycle': OE, 'hook': ('ok', 'err', 'panic')}, probe=False))
         J.append(mfam('2 tasks + retain/resize/close', ['C11'], 5 if q else 7, tasks=2, env={'create': OE, 'recycle': OE}, ctl=('retain', 'resize', 'close'), probe=False))
+        J.append(mfam('task level: close / resize while a get() is suspended in create / recycle', ['C11'], 5 if q else 7, tasks=2, env={'create': ('ok', 'pending'), 'recycle': ('ok', 'pending')},
+                      ctl=('close', 'resize', 'status'), resize_targets=(0, 1), max_ctl=2, probe=False, take=False, cancel=False))
         J.append(mfam('thread level: retain racing get / take / return (window between status() and the lock)', ['C11'], 10 if q else 14, tasks=2, env={'create': ('ok',), 'recycle': ('ok',)},
                       thread_mode=True, prefix=(('get', 'T1', 0),), ctl=('retain',), max_ctl=1, cancel=False, lifo=False, max_gets=1, max_size_concrete=2, probe=False))
         J.append(mfam('2 tasks, release profile (wrapping counters)', ['C11'], 5 if q else 7, tasks=2, env={'create': OEPP, 'recycle': OEPP}, probe=False, overflow='wrap'))
@@ -259,21 +275,27 @@ def jobs_for(pid, tier, seed):
         raise KeyError(pid)
     if pid == 'C12':
         U = dict(thread_mode=True, fine=True, cancel=False)
-        J.append(ufam('fine interleaving: return / take racing close (1 object out)', ['C12'], 22 if q else 30, tasks=1, ctor='from_vec', initial=1, prefix=(('uget', 'T1', 0),), get_variants=['try_get'], add_variants=[], max_adds=0, ctl=('close',), **U))
-        J.append(ufam('fine interleaving: try_get / get racing close', ['C12'], 20 if q else 28, tasks=1, ctor='from_vec', initial=1, get_variants=['try_get', 'get'], add_variants=[], max_adds=0, ctl=('close',), take=False, **U))
-        J.append(ufam('fine interleaving: try_add / add racing close', ['C12'], 20 if q else 28, tasks=1, get_variants=['try_get'], add_variants=['try_add', 'add'], max_adds=1, ctl=('close',), take=False, **U))
+        J.append(ufam('fine interleaving: return / take racing close (1 object out)', ['C12'], 60 if q else 80, tasks=1, ctor='from_vec', initial=1, prefix=(('uget', 'T1', 0),), get_variants=['try_get'], add_variants=[], max_adds=0, ctl=('close',), **U))
+        J.append(ufam('fine interleaving: try_get / get racing close', ['C12'], 60 if q else 80, tasks=1, ctor='from_vec', initial=1, get_variants=['try_get', 'get'], add_variants=[], max_adds=0, ctl=('close',), take=False, **U))
+        J.append(ufam('fine interleaving: try_add / add racing close', ['C12'], 60 if q else 80, tasks=1, get_variants=['try_get'], add_variants=['try_add', 'add'], max_adds=1, ctl=('close',), take=False, **U))
     if pid == 'C05':
+        J.append(ufam('fine interleaving: two try_add / add racing on an empty pool (counters)', ['C05'], 34 if q else 40, tasks=2, ctor='new', get_variants=['try_get'], add_variants=['try_add'], max_adds=2, max_adds_task=1, max_gets=0,
+                      thread_mode=True, fine=True, cancel=False, take=False))
+        J.append(ufam('fine interleaving: try_add racing take (counters)', ['C05'], 34 if q else 40, tasks=2, ctor='from_vec', initial=1, prefix=(('uget', 'T1', 0),), get_variants=['try_get'], add_variants=['try_add'], max_adds=1, max_gets=1,
+                      thread_mode=True, fine=True, cancel=False, task_roles={'T1': ('take',), 'T2': ('add',)}))
         J.append(ufam('fine interleaving: try_get / return / take / try_add by 2 threads', ['C05'], 14 if q else 18, tasks=2, ctor='from_vec', initial=1, get_variants=['try_get'], add_variants=['try_add'], max_adds=1,
                       thread_mode=True, fine=True, cancel=False))
     if pid == 'C06':
         M_ = dict(thread_mode=True, fine=True, cancel=False, lifo=False, probe=False, env={'create': ('ok',), 'recycle': ('ok',)})
         J.append(mfam('fine interleaving: return / take racing close (1 object out)', ['C06'], 26 if q else 34, tasks=1, prefix=(('get', 'T1', 0),), ctl=('close',), max_ctl=1, max_gets=1, **M_))
-        J.append(mfam('fine interleaving: get racing close', ['C06'], 24 if q else 32, tasks=1, ctl=('close',), max_ctl=1, max_gets=1, take=False, max_size_concrete=1, **M_))
+        J.append(mfam('fine interleaving: get racing close', ['C06'], 40 if q else 60, tasks=1, ctl=('close',), max_ctl=1, max_gets=1, take=False, max_size_concrete=1, **M_))
     if pid in ('C01', 'C02'):
         J.append(mfam('fine interleaving: get racing return / take (max_size 1, 2 threads)', [pid], 24 if q else 32, tasks=2, max_size_concrete=1, prefix=(('get', 'T1', 0),), max_gets=2,
                       thread_mode=True, fine=True, cancel=False, lifo=False, env={'create': ('ok',), 'recycle': ('ok',)}))
     if pid == 'C07':
-        J.append(mfam('fine interleaving: return / take racing a shrink (2 objects out)', ['C07'], 22 if q else 30, tasks=2, max_size_concrete=2, prefix=(('get', 'T1', 0), ('get', 'T2', 0)), max_gets=1,
+        J.append(mfam('a waiter holds an assigned permit across a shrink and a grow (max_size 1)', ['C07'], 6 if q else 8, tasks=2, max_size_concrete=1, prefix=(('get', 'T1', 0), ('get', 'T2', 0)),
+                      env={'create': ('ok',), 'recycle': ('ok',)}, ctl=('resize',), resize_targets=(0, 1), max_ctl=2, cancel=False, take=False, lifo=False))
+        J.append(mfam('fine interleaving: return / take racing a shrink (2 objects out)', ['C07'], 30 if q else 40, tasks=2, max_size_concrete=2, prefix=(('get', 'T1', 0), ('get', 'T2', 0)), max_gets=1,
                       ctl=('resize',), resize_targets=(1,), max_ctl=1, thread_mode=True, fine=True, cancel=False, lifo=False, env={'create': ('ok',), 'recycle': ('ok',)}))
     if pid in ('C01', 'C02', 'C09', 'C11'):
         # inductive step from an arbitrary rest state: sequential histories of any length, any 64-bit max_size
@@ -288,7 +310,7 @@ def jobs_for(pid, tier, seed):
         for k in range(2 if q else 8): J.append({'name': f'translation validation, unmanaged ({40 if q else 100} traces, offset {k * 1000})', 'kind': 'validate_unmanaged',
                                                  'cfg': {'traces': 40 if q else 100, 'offset': k * 1000}, 'crates': ['deadpool']})
     for i, j in enumerate(J):
-        j['seed'] = seed; j['tier'] = tier; j['budget'] = int(os.environ['VERIF_BUDGET_S']) if os.environ.get('VERIF_BUDGET_S') else (150 if q else 1500)
+        j['seed'] = seed; j['tier'] = tier; j['pid'] = pid; j['budget'] = int(os.environ['VERIF_BUDGET_S']) if os.environ.get('VERIF_BUDGET_S') else (150 if q else 1500)
     return J
 
 
@@ -299,7 +321,7 @@ def run(job):
         B = w_managed.ManagedBSE(prog, cfg)
         if cfg.get('overflow'): B.M.overflow_mode = cfg['overflow']
         init = B.init_states()
-        R = explore.bfs(B, init, cfg['depth'], time_budget=job['budget'], seed=job['seed'], stop_on_violation=False)
+        R = explore.bfs(B, init, cfg['depth'], time_budget=job['budget'], seed=job['seed'], stop_on_violation=False, focus=job.get('pid'))
         S = B.M.stats
         vios = []
         for v, st in R.violations:
@@ -325,7 +347,7 @@ def run(job):
         cfg = job['cfg']
         B = w_sync.SyncBSE(prog, cfg) if job['kind'] == 'sync_bse' else w_sync.RecycleBSE(prog, cfg)
         init = B.init_states()
-        R = explore.bfs(B, init, B.cfg['depth'], time_budget=job['budget'], seed=job['seed'], stop_on_violation=False)
+        R = explore.bfs(B, init, B.cfg['depth'], time_budget=job['budget'], seed=job['seed'], stop_on_violation=False, focus=job.get('pid'))
         S = B.M.stats; vios = []
         for v, st in R.violations:
             d = dict(v); d['trace'] = [list(map(str, e)) for e in st.log if e[0] in ('init', 'act')]; d['family'] = job['name']
@@ -361,7 +383,7 @@ def run(job):
         cfg = job['cfg']
         B = w_unmanaged.UnmanagedBSE(prog, cfg)
         init = B.init_states()
-        R = explore.bfs(B, init, cfg['depth'], time_budget=job['budget'], seed=job['seed'], stop_on_violation=False)
+        R = explore.bfs(B, init, cfg['depth'], time_budget=job['budget'], seed=job['seed'], stop_on_violation=False, focus=job.get('pid'))
         S = B.M.stats
         vios = []
         for v, st in R.violations:
